@@ -178,3 +178,44 @@ pub fn site_group_keys(rel: &Relation, site: &NoiseSite) -> Option<Vec<String>> 
     }
     None
 }
+
+/// Column lineage for C02: follow where the values of an output column come from.  The walk stops at a
+/// mechanism (a noise-adding projection, or a Map filtered by the tau threshold: its rows are released keys),
+/// at VALUES and at unprotected or synthetic tables.  It returns the chain of relation names down to a protected
+/// table when a column of that table reaches the output through projections, aggregations, joins and set
+/// operations only.
+pub fn unmechanised_lineage(rel: &Relation, col: usize, protected: &dyn Fn(&str) -> bool, depth: usize) -> Option<Vec<String>> {
+    fn cols_of(e: &Expr, out: &mut Vec<String>) {
+        match e {
+            Expr::Column(c) => { if let Ok(n) = c.last() { out.push(n.to_string()); } }
+            Expr::Function(f) => { for a in f.arguments().iter() { cols_of(&a, out); } }
+            Expr::Aggregate(a) => cols_of(a.argument(), out),
+            _ => {}
+        }
+    }
+    if depth > 200 { return None; }
+    let with = |mut p: Vec<String>| { p.insert(0, rel.name().to_string()); p };
+    match rel {
+        Relation::Table(t) => if protected(t.name()) { Some(vec![format!("{}.{}", t.name(), t.schema().iter().nth(col).map(|f| f.name().to_string()).unwrap_or_default())]) } else { None },
+        Relation::Values(_) => None,
+        Relation::Map(m) => {
+            if m.filter().as_ref().and_then(tau_of).is_some() { return None; }
+            let e = m.projection().iter().nth(col)?;
+            if sigma_of(e).is_some() || contains_random(e) { return None; }
+            let mut cs = vec![]; cols_of(e, &mut cs);
+            for c in cs { if let Some(i) = m.input().schema().iter().position(|f| f.name() == c) { if let Some(p) = unmechanised_lineage(m.input(), i, protected, depth + 1) { return Some(with(p)); } } }
+            None
+        }
+        Relation::Reduce(r) => {
+            let a = r.aggregate().iter().nth(col)?;
+            let c = a.column().last().ok()?.to_string();
+            let i = r.input().schema().iter().position(|f| f.name() == c)?;
+            unmechanised_lineage(r.input(), i, protected, depth + 1).map(with)
+        }
+        Relation::Join(j) => {
+            let nl = j.left().schema().len();
+            if col < nl { unmechanised_lineage(j.left(), col, protected, depth + 1).map(with) } else { unmechanised_lineage(j.right(), col - nl, protected, depth + 1).map(with) }
+        }
+        Relation::Set(s) => unmechanised_lineage(s.left(), col, protected, depth + 1).or_else(|| unmechanised_lineage(s.right(), col, protected, depth + 1)).map(with),
+    }
+}
